@@ -91,6 +91,7 @@ def run(tier, replay=None):
     chk.count('functions parsed', len(F.functions))
     run_ranges(chk, F)
     run_refusal(chk, F)
+    run_fresh_init(chk, F)
     run_isprime(chk, F, tier)
     chk.assumptions += ['clang 14 parser/Sema and its implicit-conversion nodes', 'operands of the arithmetic helpers '
                         'are reduced (the property quantifies over reduced operands)', 'helper contracts of '
@@ -307,3 +308,126 @@ def run_isprime(chk, F, tier):
         chk.ob('E7-isprime-siblings', '%s::_is_prime agrees with the witnessed copy' % cn, '%s:%d' % (fl, ln),
                not diff, '' if not diff else 'differs from Zp_field_element::_is_prime: %s vs %s' % diff[0],
                key='E7|%s::_is_prime' % cn)
+
+
+# ------------------------------------------------------------------ E10: (re-)initialisation does not depend on the previous state
+
+RESET_CALLS = ('clear', 'assign', 'swap')
+NEUTRAL_CALLS = ('resize', 'reserve', 'shrink_to_fit')
+GROW_CALLS = ('push_back', 'emplace_back', 'insert', 'emplace')
+
+
+def _parents(root):
+    par = {}
+    for x in ir.walk(root):
+        for k in ir.kids(x):
+            par[id(k)] = x
+    return par
+
+
+def _index_text(sub):
+    c = sub.get('c') or []
+    idx = c[2] if sub.get('k') == 'CXXOperatorCallExpr' and len(c) > 2 else (c[1] if len(c) > 1 else None)
+    return ir.show(idx).replace(':', ';')
+
+
+def field_use_classifier(fn, fields):
+    """tags every mention of a member field of *this: RESET / READ / GROW / EWRITE (element write) / NEUTRAL"""
+    par = _parents(fn.get('body'))
+
+    def up(x):
+        p = par.get(id(x))
+        while p is not None and p.get('k') in ir.CAST_KINDS + ('ParenExpr',):
+            x, p = p, par.get(id(p))
+        return x, p
+
+    def classify(x):
+        f = None
+        if x.get('k') in ir.MEMBER_KINDS or (x.get('k') == 'DeclRefExpr' and x.get('dk') in ('Field', 'Var')):
+            name = x.get('n')
+            if name in fields:
+                if x.get('k') == 'DeclRefExpr' or ir.this_field(x) == name or x.get('implicit'):
+                    f = name
+        if f is None:
+            return []
+        me, p = up(x)
+        if p is None:
+            return ['READ:' + f]
+        pk = p.get('k')
+        # F = ... / F op= ...
+        if pk in ('BinaryOperator', 'CompoundAssignOperator') and p.get('op') in ir.ASSIGN_OPS and \
+                (p.get('c') or [None])[0] is me:
+            return ['RESET:' + f] if p.get('op') == '=' else ['READ:' + f, 'RESET:' + f]
+        if pk == 'CXXOperatorCallExpr' and p.get('op') == '=' and len(p.get('c') or []) > 1 and p['c'][1] is me:
+            return ['RESET:' + f]
+        # F[i]  (element access): write if it is itself the target of an assignment
+        if (pk == 'CXXOperatorCallExpr' and p.get('op') == '[]' and p['c'][1] is me) or \
+                (pk == 'ArraySubscriptExpr' and p['c'][0] is me):
+            pe, pp = up(p)
+            if pp is not None and pp.get('k') in ('BinaryOperator', 'CompoundAssignOperator', 'CXXOperatorCallExpr') \
+                    and pp.get('op') == '=' and ((pp.get('c') or [None])[0] is pe or
+                                                 (pp['k'] == 'CXXOperatorCallExpr' and len(pp['c']) > 1 and
+                                                  pp['c'][1] is pe)):
+                return ['EWRITE:%s:%s' % (f, _index_text(p))]
+            return ['EREAD:%s:%s' % (f, _index_text(p))]
+        # F.method(...)
+        if pk in ir.MEMBER_KINDS:
+            ce, cp = up(p)
+            if cp is not None and ir.is_call(cp) and ir.callee_expr(cp) is p:
+                n = p.get('n')
+                if n in RESET_CALLS:
+                    return ['RESET:' + f]
+                if n in NEUTRAL_CALLS:
+                    return ['NEUTRAL:' + f]
+                if n in GROW_CALLS:
+                    return ['GROW:' + f]
+                if n == 'back':
+                    return ['EWRITE:' + f] if False else ['READ:' + f]
+                return ['READ:' + f]
+            return ['READ:' + f]
+        if pk == 'UnaryOperator' and p.get('op') in ('++', '--'):
+            return ['READ:' + f, 'RESET:' + f]
+        return ['READ:' + f]
+    return classify
+
+
+def run_fresh_init(chk, F):
+    n = 0
+    for cname, fname in TABLE['initialisers']:
+        fs = [f for f in F.functions if f.get('clsname') == cname and f['name'] == fname and f['inst'] in (0, 2)]
+        if not fs:
+            raise AnalysisBroken('C10: initialiser %s::%s not found' % (cname, fname))
+        cls = [c for c in F.classes if c['name'] == cname and c['inst'] in (0, 2)]
+        fields = {fl['n'] for c in cls for fl in c['fields']}
+        fields |= {v['name'] for v in F.staticvars if v.get('cls', '').endswith(cname)}
+        for f in fs:
+            n += 1
+            cl = field_use_classifier(f, fields)
+            ps = paths.enumerate_paths(f, cl, loop_mode='1', keep_conds=False, cap=50000)
+            bad = None
+            for p in ps:
+                fresh = set()
+                for tag, node in p.events:
+                    if tag == '?':
+                        continue
+                    parts = tag.split(':')
+                    kind, fld = parts[0], parts[1]
+                    if kind == 'RESET':
+                        fresh.add(fld)
+                    elif kind == 'EWRITE':
+                        fresh.add(fld + '[' + parts[2] + ']')
+                    elif kind in ('READ', 'GROW', 'EREAD') and fld not in fresh and fld not in TABLE[
+                            'init_reads_ok'].get('%s::%s' % (cname, fname), []):
+                        if kind == 'EREAD' and fld + '[' + parts[2] + ']' in fresh:
+                            continue   # this element was written earlier in the same call
+                        if bad is None:
+                            bad = (fld, node, kind)
+                if bad:
+                    break
+            chk.ob('E10-fresh-init', '%s::%s does not depend on the previous state' % (cname, fname),
+                   '%s:%d' % (rel(f['file']), f['line']), bad is None,
+                   '' if bad is None else 'member %s is %s at line %s before it has been reset in this call: a second '
+                   'initialisation with another characteristic would reuse values computed for the previous one'
+                   % (bad[0], 'grown (push/insert)' if bad[2] == 'GROW' else 'read', bad[1].get('l')),
+                   key='E10init|%s::%s|%s' % (cname, fname, bad[0] if bad else ''))
+    chk.expect_count('E10-fresh-init', 'initialisers', n, 6)
